@@ -104,6 +104,8 @@ pub enum RObs {
     Err,
     Panic(String),
     Unsupported,
+    /// a failed copy left the destination's earlier content changed
+    Damaged(String),
 }
 
 #[derive(Clone, Debug)]
@@ -228,9 +230,9 @@ impl<E: Endianness + 'static, R: CodesRead<E> + Debug + 'static> Holder<E, R> {
             ROp::IoRead(len) => match self.caps.io_read {
                 None => RObs::Unsupported,
                 Some(f) => {
-                    let mut buf = vec![0xEEu8; *len as usize];
-                    match f(r, &mut buf) {
-                        Ok(c) => RObs::Bytes(buf, c),
+                    let mut ab = crate::util::AlignedBytes::new(*len as usize, 0xEE);
+                    match f(r, ab.as_mut_slice()) {
+                        Ok(c) => RObs::Bytes(ab.as_slice().to_vec(), c),
                         Err(_) => RObs::Err,
                     }
                 }
@@ -246,6 +248,7 @@ impl<E: Endianness + 'static, R: CodesRead<E> + Debug + 'static> Holder<E, R> {
                 None => RObs::Unsupported,
                 Some(f) => match f(r, *n as u64, *wd, *prefill, *from) {
                     Ok(b) => RObs::Copy(b),
+                    Err(m) if m.starts_with(DAMAGED) => RObs::Damaged(m),
                     Err(_) => RObs::Err,
                 },
             },
@@ -368,6 +371,8 @@ where
     out
 }
 
+/// prefix of the error text of a failed copy that damaged earlier content of the destination
+pub const DAMAGED: &str = "DESTINATION-DAMAGED: ";
 pub const PREFILL_PAT: u64 = 0xA5C3_96E1_5A3C_69B7;
 pub const SENTINEL: u64 = 0b1_0110_1;
 pub const SENTINEL_BITS: usize = 6;
@@ -401,8 +406,31 @@ where
         src.copy_to(&mut dst, n).map_err(|e| format!("{e}"))
     };
     if let Err(e) = r {
-        std::mem::forget(dst);
-        return Err(e);
+        // a copy that fails (the source ran out of bits) must not damage what the destination
+        // already held: finish the writer and compare the bits written before the copy
+        let e_end = if E::IS_BIG { crate::model::End::BE } else { crate::model::End::LE };
+        let fin = catch_unwind(AssertUnwindSafe(|| dst.into_inner().map(|inner| bytes_from_words::<W>(&inner.into_inner())).map_err(|e| format!("{e}"))));
+        return match fin {
+            Ok(Ok(bytes)) => {
+                let got = crate::model::Bits::from_bytes(&bytes, e_end);
+                let mut exp = crate::model::Bits::new();
+                let mut left = pf;
+                while left > 0 {
+                    let c = left.min(64);
+                    let val = if c == 64 { PREFILL_PAT } else { PREFILL_PAT & ((1u64 << c) - 1) };
+                    exp.push_field(val as u128, c, e_end);
+                    left -= c;
+                }
+                for i in 0..pf {
+                    if got.bit(i) != exp.bit(i) {
+                        return Err(format!("{}the copy failed ({}) and bit {} of the {} bits the destination held before the copy is now {:?}", DAMAGED, e, i, pf, got.bit(i)));
+                    }
+                }
+                Err(e)
+            }
+            Ok(Err(fe)) => Err(format!("{}the copy failed ({}) and finishing the destination then failed too: {}", DAMAGED, e, fe)),
+            Err(p) => Err(format!("{}the copy failed ({}) and finishing the destination then panicked: {}", DAMAGED, e, crate::util::panic_msg(&p))),
+        };
     }
     dst.write_bits(SENTINEL, SENTINEL_BITS).map_err(|e| format!("{e}"))?;
     let inner = dst.into_inner().map_err(|e| format!("{e}"))?;
@@ -465,7 +493,66 @@ fn mk<E: Endianness + 'static, R: CodesRead<E> + Debug + 'static>(r: R, caps: Ca
     Box::new(Holder::<E, R> { r, caps, info: Rc::new(info), _e: std::marker::PhantomData })
 }
 
-pub const BACKENDS: [&str; 6] = ["memzx", "memstrict", "vec", "slice", "cursor", "bufreader"];
+/// A seekable byte source that hands its bytes over in pieces, like a chain of readers, a pipe or a
+/// small BufReader would: a read never crosses a junction (a fixed set of byte positions, so that
+/// junctions fall inside and between words of every size), and the first read attempted at a
+/// junction is answered with ErrorKind::Interrupted.  The behaviour is a function of the byte
+/// position and one flag, so reader state spaces over it still close.
+#[derive(Debug, Clone)]
+pub struct Choppy {
+    inner: std::io::Cursor<Vec<u8>>,
+    interrupted: bool,
+}
+
+impl Choppy {
+    pub fn new(bytes: Vec<u8>) -> Self {
+        Choppy { inner: std::io::Cursor::new(bytes), interrupted: false }
+    }
+    pub fn junction(p: u64) -> bool {
+        if p % 7 == 0 || p % 16 == 11 {
+            return true;
+        }
+        let (mut a, mut b) = (1u64, 2u64);
+        while b < p {
+            let c = a + b;
+            a = b;
+            b = c;
+        }
+        b == p || a == p
+    }
+}
+
+impl std::io::Read for Choppy {
+    fn read(&mut self, buf: &mut [u8]) -> std::io::Result<usize> {
+        let p = self.inner.position();
+        if p > 0 && Self::junction(p) && !self.interrupted {
+            self.interrupted = true;
+            return Err(std::io::Error::new(std::io::ErrorKind::Interrupted, "interrupted at a junction"));
+        }
+        let mut n = 1usize;
+        while n < buf.len() && !Self::junction(p + n as u64) {
+            n += 1;
+        }
+        let n = n.min(buf.len());
+        let r = self.inner.read(&mut buf[..n])?;
+        if r > 0 {
+            self.interrupted = false;
+        }
+        Ok(r)
+    }
+}
+
+impl std::io::Seek for Choppy {
+    fn seek(&mut self, pos: std::io::SeekFrom) -> std::io::Result<u64> {
+        self.interrupted = false;
+        self.inner.seek(pos)
+    }
+    fn stream_position(&mut self) -> std::io::Result<u64> {
+        Ok(self.inner.position())
+    }
+}
+
+pub const BACKENDS: [&str; 7] = ["memzx", "memstrict", "vec", "slice", "cursor", "bufreader", "choppy"];
 pub const KINDS: [&str; 5] = ["buf8", "buf16", "buf32", "buf64", "unbuf"];
 pub const WRAPPERS: [&str; 3] = ["", "count", "dbg"];
 
@@ -566,6 +653,12 @@ macro_rules! mk_backend {
                 let b = WordAdapter::<$W, std::io::Cursor<Vec<u8>>>::new(std::io::Cursor::new(all));
                 $mkreader!(min, $E, WordAdapter<$W, std::io::Cursor<Vec<u8>>>, b, $info, $wrapper)
             }
+            "choppy" => {
+                let mut all = $bytes.to_vec();
+                all.extend_from_slice($tail);
+                let b = WordAdapter::<$W, Choppy>::new(Choppy::new(all));
+                $mkreader!(min, $E, WordAdapter<$W, Choppy>, b, $info, $wrapper)
+            }
             _ => unreachable!(),
         }
     }};
@@ -591,7 +684,7 @@ pub fn make_reader(e: End, kind: &'static str, backend: &'static str, wrapper: &
 /// `tail`: extra bytes after the last whole word of a byte-stream backend ("cursor", "bufreader"):
 /// a partial trailing word, which is not data (reading it must be an error).
 pub fn make_reader_tail(e: End, kind: &'static str, backend: &'static str, wrapper: &'static str, bytes: &[u8], tail: &[u8]) -> Box<dyn Rd> {
-    assert!(tail.is_empty() || matches!(backend, "cursor" | "bufreader"));
+    assert!(tail.is_empty() || matches!(backend, "cursor" | "bufreader" | "choppy"));
     let shown: &'static str = if tail.is_empty() { backend } else { crate::rdsys::leak(&format!("{}+tail{}", backend, tail.len())) };
     if matches!(backend, "bufreader" | "vec" | "slice") {
         let bytes: Vec<u8> = bytes.to_vec();
